@@ -552,6 +552,27 @@ func FaultTable() []FaultRow {
 		return &Op{K: "RelExchangeBatch", F: f, Add: []int{c}, Rel: ip(c), T: entP(ecs.Entity{}), Q: g.R.Chance(0.5)}
 	})
 
+	add("rel.missing.RelExchangeBatch", false, func(g *Gen) *Op {
+		_, me, ok := noRel(g)
+		if !ok {
+			return nil
+		}
+		ab := absentIn(g, me, g.nonRels())
+		rs := g.relsUsed()
+		if len(ab) == 0 || len(rs) == 0 {
+			return nil
+		}
+		return &Op{K: "RelExchangeBatch", F: &FSpec{K: "excl", IDs: me.IDs()}, Add: []int{Pick(g.R, ab)}, Rel: ip(Pick(g.R, rs)), T: entP(ecs.Entity{}), Q: g.R.Chance(0.5)}
+	})
+	add("rel.noeffect.RelExchangeBatch", true, func(g *Gen) *Op {
+		rs := g.relsUsed()
+		if len(rs) == 0 {
+			return nil
+		}
+		r := Pick(g.R, rs)
+		return &Op{K: "RelExchangeBatch", F: &FSpec{K: "all", IDs: []int{r}}, Rel: ip(r), T: entP(g.pickTarget(ecs.Entity{})), Q: g.R.Chance(0.5)}
+	})
+
 	// ---- dead relation target, through every target-taking entry point
 	deadT := func(g *Gen) (*Ent, bool) {
 		d, ok := g.dead()
